@@ -123,6 +123,7 @@ type c3Scenario struct {
 	HasCSV  bool
 	KeepCols int  // spark-trunc: --cols
 	ColsDesc bool // spark-trunc: --sort-cols text:reverse
+	Missing   int  // paths on the command line that do not exist (every variant names as many): read errors, exit status 2
 	NoMatcher bool // no -m/-d on the command line: every line matches as a whole ({0})
 	OneByOne bool // equality only demanded between 1-reader-1-worker variants (not used by the order-insensitive commands)
 }
@@ -293,6 +294,9 @@ func c3GenScenario(t *simrt.Tape) *c3Scenario {
 		sc.Flags = append(common, "analyze")
 		if t.WBool(1, 2) {
 			sc.Flags = append(sc.Flags, "--extra")
+		}
+		if t.WBool(1, 3) {
+			sc.Flags = append(sc.Flags, "--reverse") // ordered statistics on the reversed series
 		}
 	case "json-key":
 		sc.Flags = append(common, "histo", "-n", "1000", "--sort", "text")
@@ -615,9 +619,15 @@ func c3RunVariant(rc *RunCtx, sc *c3Scenario, v *c3Variant) *c3Out {
 		if anyGz {
 			args = append(args, "-z")
 		}
+		var files []string
 		for _, o := range v.Order {
-			args = append(args, names[o])
+			files = append(files, names[o])
 		}
+		for i := 0; i < sc.Missing; i++ {
+			at := (i*7 + len(files)) % (len(files) + 1)
+			files = append(files[:at:at], append([]string{fmt.Sprintf("nope-%d.log", i)}, files[at:]...)...)
+		}
+		args = append(args, files...)
 	} else if rc.Tape.WBool(1, 2) {
 		args = append(args, "-")
 	}
@@ -679,13 +689,22 @@ func init() {
 	worlds["C03"] = func(rc *RunCtx) {
 		t := rc.Tape
 		sc := c3GenScenario(t)
+		if t.WBool(1, 8) {
+			// some paths on the command line do not exist: read errors (exit status 2) that must not keep the other inputs
+			// from being aggregated completely, however many reader slots there are
+			sc.Missing = 1 + t.W(3)
+		}
 		ref := c3Reference(sc)
 		desc := c3Desc(sc)
+		desc["missing_paths"] = sc.Missing
 		rc.Sample = desc
 		nVar := t.WRange(3, 5)
 		var outs []*c3Out
 		for i := 0; i < nVar; i++ {
 			v := c3GenVariant(t, sc, i == 0)
+			if sc.Missing > 0 {
+				v.Stdin = false // file arguments in every variant
+			}
 			o := c3RunVariant(rc, sc, v)
 			outs = append(outs, o)
 			if !rc.StdEnd(o.Sim, "termination") {
@@ -806,7 +825,7 @@ func c3CheckReference(rc *RunCtx, sc *c3Scenario, ref *c3Ref, o *c3Out, ctx func
 	}
 	want := 0
 	switch {
-	case ref.ParseErrors > 0:
+	case ref.ParseErrors > 0 || sc.Missing > 0:
 		want = 2
 	case ref.Matched == 0:
 		want = 1
